@@ -88,10 +88,10 @@ type egen struct {
 	leaves int
 }
 
-func (g *egen) lab(s string) string   { g.n++; return fmt.Sprintf("%s%d", s, g.n) }
-func (g *egen) uni(n int) int         { return gen.Uniform(g.t, g.lab("u"), n) }
-func (g *egen) chance(p int) bool     { return gen.Chance(g.t, g.lab("c"), p) }
-func (g *egen) weighted(w []int) int  { return gen.Weighted(g.t, g.lab("w"), w) }
+func (g *egen) lab(s string) string     { g.n++; return fmt.Sprintf("%s%d", s, g.n) }
+func (g *egen) uni(n int) int           { return gen.Uniform(g.t, g.lab("u"), n) }
+func (g *egen) chance(p int) bool       { return gen.Chance(g.t, g.lab("c"), p) }
+func (g *egen) weighted(w []int) int    { return gen.Weighted(g.t, g.lab("w"), w) }
 func (g *egen) pick(xs []string) string { return xs[g.uni(len(xs))] }
 
 func (g *egen) leafText(text string, kind byte) cx {
